@@ -179,6 +179,9 @@ def c04(chk):
     # Networks with schedule gates, every node compared after every step
     conn_replay(chk, "mgr-replay2", "SIM_ConnReplay.cfg", num=120 if quick(chk) else 4000, depth=100)
     conn_replay(chk, "mgr-replay3", "SIM_ConnReplay3.cfg", num=60 if quick(chk) else 2000, depth=120)
+    if not quick(chk):
+        # every behaviour with two dials among three networks (5994), exhaustively
+        conn_replay(chk, "mgr-exhaustive3", "SIM_ConnReplay_3ex.cfg", exhaustive=True, validate=4)
     # (d) unbounded: ApProof abstracts the active set to stored / last event / closed; TLAPS proves its
     # invariant for any number of peers and connections, TLC checks that MC_Ap refines it
     # (PROPERTY RefinesApProof in MC_Ap*.cfg), and a proof mutant must fail
